@@ -174,6 +174,7 @@ def handle : Handler := fun op inp impl => do
     let adm := admissible c && strategyOK s
     let F := facts c s ns ref
     let holds := [("C10.finder_no_panic", !adm || noPanic io),
+                  ("C09.finder_no_panic", !adm || noPanic io),
                   ("C10.rollback_detected", rollbackDetected c s ns ref io),
                   ("C10.no_false_rollback", noFalseRollback c s ns ref io),
                   ("C10.inconsistent_is_opaque", inconsistentIsOpaque c s ns ref io),
